@@ -95,9 +95,9 @@ func main() {
 		}
 		cfg := rt.Config{Seed: es, Strategy: "random", MaxSteps: *maxSteps, MaxTicks: p.MaxTicks, TickBias: p.TickBias, TickHold: p.TickHold, Mem: *mem}
 		if *hold != "" {
-			cfg.Hold = strings.SplitN(*hold, "|", 2)
+			cfg.Hold = strings.SplitN(*hold, "|", 3)
 		} else if p.Hold != "" {
-			cfg.Hold = strings.SplitN(p.Hold, "|", 2)
+			cfg.Hold = strings.SplitN(p.Hold, "|", 3)
 		}
 		if p.Steps > 0 {
 			cfg.MaxSteps = p.Steps
@@ -170,5 +170,5 @@ func holdOf(h string) []string {
 	if h == "" {
 		return nil
 	}
-	return strings.SplitN(h, "|", 2)
+	return strings.SplitN(h, "|", 3)
 }
